@@ -126,6 +126,11 @@ func c17GenTree(R *core.Rand) *tree.Tree {
 				if R.P(1, 2) {
 					e.Xattrs[core.Pick(R, []string{"user.p%q", "user.%25", "user.%3D"})] = []byte("y=z")
 				}
+				if R.P(1, 2) {
+					// punctuation, blanks and non-ASCII bytes: written as they are
+					// (only '=' and '%' are encoded in a keyword)
+					e.Xattrs[core.Pick(R, []string{"user.DosStream.s:$DATA", "user.mime+type", "user.caf\u00e9", "user.a b", "user.x@y,z", "user.q?&;#~!"})] = []byte("w")
+				}
 				break
 			}
 		}
@@ -369,7 +374,7 @@ func init() {
 	core.Register(&core.Prop{
 		ID:    "C17",
 		Level: "exploration",
-		Rule: "random trees as in C01 (adversarial names incl. non-ASCII, empty files, sizes around the 32KiB chunk, ~1MiB files, hard-link groups of files, fifos and char devices, symlinks, fifos, char/block devices, setuid/setgid/sticky, three owners, ns/negative/far-future mtimes, user.* xattrs with empty and binary values on files and directories (names holding '=' and '%' in 1 tree of 40, compared after undoing GNU tar's keyword encoding), trusted.* on symlinks) plus 0-2 entries renamed to 101-255 byte (partly non-ASCII) names x filter {none, include, exclude, include+exclude; 0-2 patterns each from the C10 grammar, single level fsutil.NewFilterFS} x source {fsutil.NewFS on disk, synthetic in-memory FS, fsutil.SubDirFS over NewFS (half of them with a second sub-root 'su' next to 'sub'), diagnostic: filter stacked on a keep-all map filter}. " +
+		Rule: "random trees as in C01 (adversarial names incl. non-ASCII, empty files, sizes around the 32KiB chunk, ~1MiB files, hard-link groups of files, fifos and char devices, symlinks, fifos, char/block devices, setuid/setgid/sticky, three owners, ns/negative/far-future mtimes, user.* xattrs with empty and binary values on files and directories (names holding '=' and '%', and in half of those also ':', '$', '+', '@', ',', '?', '&', ';', '#', '!', a blank or non-ASCII bytes, in 1 tree of 40, compared after undoing GNU tar's keyword encoding of '=' and '%' only), trusted.* on symlinks) plus 0-2 entries renamed to 101-255 byte (partly non-ASCII) names x filter {none, include, exclude, include+exclude; 0-2 patterns each from the C10 grammar, single level fsutil.NewFilterFS} x source {fsutil.NewFS on disk, synthetic in-memory FS, fsutil.SubDirFS over NewFS (half of them with a second sub-root 'su' next to 'sub'), diagnostic: filter stacked on a keep-all map filter}. " +
 			"fsutil.WriteTar writes into a buffer. The view is predicted from an independent snapshot (or the model) + the naive reference filter and compared with a real second Walk; the archive is read with archive/tar (well-formed to EOF, two zero blocks, member sequence == view, per member: name with directory slash, type flag, link name, size, payload bytes, mode incl. special bits, uid/gid, mtime = view exactly, floored or rounded to the second, device numbers, SCHILY.xattr.* records) and extracted as root with GNU tar (--xattrs --xattrs-include=* --same-owner --numeric-owner -p) into an empty directory whose snapshot is compared with the view (type, bytes, link groups, targets, device numbers, mode, owner, xattrs, mtime incl. directories to the second). " +
 			"non-trivial = the archive has at least one member and the case has a link group, a special file, a multi-chunk or empty file, a name > 100 bytes, or a filter that selects a proper non-empty subset; distinct by (tree, filter, source) fingerprint",
 		Assumptions: []string{
@@ -647,6 +652,9 @@ func c17Run(c *core.Ctx) *core.Result {
 			for k := range e.Xattrs {
 				if strings.ContainsAny(k, "=%") {
 					feat["xattr_names_with_equals_or_percent"] = true
+				}
+				if strings.ContainsAny(k, ":$+@,?&;#! ") || strings.IndexFunc(k, func(r rune) bool { return r > 127 }) >= 0 {
+					feat["xattr_names_with_punctuation_or_non_ascii"] = true
 				}
 			}
 			for _, v := range e.Xattrs {
